@@ -56,7 +56,10 @@ impl<'de> Deserialize<'de> for EntryTagSet<'static> {
             {
                 let mut v = Vec::with_capacity(access.size_hint().unwrap_or_default());
 
-                while let Some((key, values)) = access.next_entry::<&str, EntryTagValues>()? {
+                // keys are read as `Cow<str>`: serde_json can only lend out a `&str` when the key is
+                // spelled without escape sequences, so names such as `a"b` need an owned copy
+                while let Some((key, values)) = access.next_entry::<Cow<'_, str>, EntryTagValues>()? {
+                    let key = key.as_ref();
                     let (tag, enc) = match key.chars().next() {
                         Some('~') => (key[1..].to_owned(), false),
                         None => return Err(M::Error::custom("invalid tag name: empty string")),
